@@ -426,6 +426,25 @@ func genProducer(c *cf.Case, r *cf.Rng, prop string) {
 		}
 		c.Faults = append(c.Faults, f)
 	}
+	if prop == "C16" && r.Intn(5) == 0 {
+		// a long steady stream whose gaps are shorter than Flush.Frequency and no other trigger: the flush deadline
+		// counts from the first buffered message, not from the last one
+		cfg.Flush = cf.Flush{FreqMs: r.Pick(20, 50)}
+		cfg.MaxRequestSize = 0
+		gap := int64(r.Pick(5000, 10000))
+		n := 0
+		for i := range c.Workload {
+			if c.Workload[i].Op == "send" {
+				c.Workload[i].ThinkUs = gap
+				c.Workload[i].Actor = 0
+				n++
+			}
+		}
+		for i := n; i < 150; i++ {
+			t := c.Cluster.Topics[0]
+			c.Workload = append(c.Workload[:len(c.Workload)-1], cf.Op{Op: "send", Topic: t.Name, Partition: t.Partitions[0].ID, ID: i, KeyLen: -1, ValLen: 10, ThinkUs: gap}, c.Workload[len(c.Workload)-1])
+		}
+	}
 	if faultMax > 0 && r.Intn(6) == 0 {
 		// repeated elections under steady input: every message arrives a little later than the one before, and
 		// several produce requests are answered "not leader" followed by a leaderless spell, so that fresh input,
